@@ -187,15 +187,20 @@ BlockStep ==
 \* zero-height preparation ends the behaviour: the chain stops there
 PrepStep == WithPrep /\ PrepZeroHeight /\ ev' = [name |-> "PrepZeroHeight", ok |-> TRUE, signer |-> ""]
 
+\* zero-height restart as one step (a configuration switches it on: WithRestart <- TRUE)
+WithRestart == FALSE
+RestartStep == WithRestart /\ PrepRestart(now) /\ ev' = [name |-> "Restart", ok |-> TRUE, signer |-> ""]
+
 MCNext == /\ ev.name # "PrepZeroHeight"
-          /\ (MsgStep \/ ParamStep \/ BlockStep \/ PrepStep)
-          /\ hist' = HistNext
+          /\ (MsgStep \/ ParamStep \/ BlockStep \/ PrepStep \/ RestartStep)
+          /\ hist' = IF ev'.name = "Restart" THEN HistRestart(ctx') ELSE HistNext
 
 MCSpec == MCInit /\ [][MCNext]_pvars
 
 \* every growing value is bounded
 MCConstraint ==
     /\ height <= MaxHeight
+    /\ (WithRestart => now <= InitNowVal + 2 * MaxHeight)     \* (restarts reset the height, not the clock)
     /\ \A id \in DOMAIN ctx : ctx[id].batch <= MaxBatch
 
 \* the step outputs are not part of the state's identity
